@@ -121,6 +121,9 @@ FULL_INFO = re.compile(r"%[-_]?Y|%F")
 
 def fmt_has_full_date(f):
     """formats whose output determines the date: year + (month + day | day of year), none repeated"""
+    # unpadded or space-padded fields that touch the next field cannot be told apart when read back
+    if re.search(r"%[-_][A-Za-z]%[-_]?[A-Za-z]|%e%", f):
+        return False
     toks = re.findall(r"%[-_]?[A-Za-z%]", f)
     ys = [t for t in toks if t[-1] == "Y"]
     fs = [t for t in toks if t[-1] == "F"]
@@ -384,11 +387,14 @@ def gen(r, ctx=None):
     if x < 0.68:
         # parse: a formatted date, possibly damaged
         y, m, d = gen_date(r, valid_only=r.random() < 0.7)
+        if r.random() < 0.25:   # fields at and just outside their limits
+            m = r.choice([0, 12, 13, 19, 99, m])
+            d = r.choice([0, 31, 32, 39, 99, d])
         f = r.choice(FORMATS[:12])
         s = (f.replace("%F", "%Y-%m-%d").replace("%-Y", str(y)).replace("%_Y", "%4d" % y).replace("%Y", "%04d" % y)
              .replace("%-m", str(m)).replace("%_m", "%2d" % m).replace("%m", "%02d" % m)
              .replace("%-d", str(d)).replace("%_d", "%2d" % d).replace("%e", "%2d" % d).replace("%d", "%02d" % d)
-             .replace("%-j", str(r.randint(0, 367))).replace("%_j", "%3d" % r.randint(1, 366)).replace("%j", "%03d" % r.randint(0, 366))
+             .replace("%-j", str(r.choice([0, 1, 59, 60, 365, 366, 367, 999, r.randint(0, 367)]))).replace("%_j", "%3d" % r.randint(1, 366)).replace("%j", "%03d" % r.choice([0, 1, 60, 365, 366, 367, r.randint(0, 366)]))
              .replace("%C", "%02d" % (abs(y) // 100 % 100)).replace("%y", "%02d" % (abs(y) % 100)))
         if r.random() < 0.25:
             s = r.choice([s[:-1], s + "0", s.replace("-", "/", 1), " " + s, s.replace("0", "", 1), ""])
@@ -495,6 +501,93 @@ def keyfn(line):
     return line
 
 
+# ----------------------------------------------------------------- Elk source programs
+
+def elk_int(v):
+    return "(%d)" % v if v < 0 else str(v)
+
+
+def elk_program(idx, line):
+    """the same operation written in Elk (parser, checker, compiler, VM bindings of vm/date.go, vm/int.go)"""
+    f = line.split("\t")[1:]
+    op = f[0]
+    hdr = "module C22P%d\nend\n" % idx
+    show = 'println("#{r.year} #{r.month} #{r.day}")\n'
+    if op in ("add", "sub"):
+        y, m, d, mo, da = map(int, f[1:6])
+        if not valid(y, m, d):
+            return None
+        sign = "+" if op == "add" else "-"
+        return hdr + "r := Date(%d, %d, %d) %s (%s.months + %s.days)\n" % (y, m, d, sign, elk_int(mo), elk_int(da)) + show
+    if op == "diffadd":
+        y1, m1, d1, y2, m2, d2 = map(int, f[1:7])
+        if not (valid(y1, m1, d1) and valid(y2, m2, d2)):
+            return None
+        return (hdr + "s := Date(%d, %d, %d) - Date(%d, %d, %d)\nr := Date(%d, %d, %d) + s\n"
+                % (y1, m1, d1, y2, m2, d2, y2, m2, d2) + show)
+    if op == "str":
+        y, m, d = map(int, f[1:4])
+        if not valid(y, m, d):
+            return None
+        return hdr + "r := try Date.parse(Date(%d, %d, %d).to_string)\n" % (y, m, d) + show
+    return None
+
+
+def elk_answer(a):
+    if a["outcome"] == "value":
+        return a["stdout"].strip()
+    if a["outcome"] == "error":
+        return {"Std::Date::InvalidYearError": "err Year", "Std::FormatError": "err Format"}.get(
+            a.get("err_class", ""), "err " + a.get("err_class", ""))
+    return a["outcome"] + " " + (a.get("panic") or "; ".join(d["msg"][:60] for d in a.get("diags", [])[:2]))[:120]
+
+
+def run_elk(ctx, lines):
+    reqs, used = [], []
+    for i, ln in enumerate(lines):
+        src = elk_program(i, ln)
+        if src:
+            reqs.append({"id": "e%d" % i, "src": src, "timeout_ms": 4000})
+            used.append(ln)
+    if not reqs:
+        return
+    model = vlib.run_model(used)
+    answers = vlib.run_programs(reqs)
+    ok = True
+    reported = 0
+    for ln, req, a, mans in zip(used, reqs, answers, model):
+        got = elk_answer(a)
+        want = mans.split(" | ")[-1]
+        want = want[3:] if want.startswith("ok ") else want
+        ctx.case(("elk", ln), sample={"program": req["src"], "impl": got, "model": want})
+        ctx.stat("program:" + ln.split("\t")[1])
+        # the value-level oracle judges the program's answer put back into the line's answer format
+        f = ln.split("\t")[1]
+        as_line = ("ok " + got if not got.startswith("err") else got) if f in ("add", "sub") else \
+                  ("ok x | " + got if f == "diffadd" or not got.startswith("err") or f == "str" else got)
+        if f == "str":
+            as_line = "ok %s | %s" % (mans.split(" | ")[0][3:] if mans.startswith("ok ") else "-", got)
+        pf = oracle(ln, as_line) if not got.startswith(("panic", "fatal", "rejected", "timeout")) else "the program failed: " + got
+        if got == want and pf is None:
+            continue
+        inp = {"line": ln, "program": req["src"]}
+        if pf is not None and got == want:
+            v = {"kind": "property-fails", "input": inp, "detail": f"{pf}; program answers {got!r}, model {want!r}"}
+            if ctx.match_finding(v) is not None:
+                ctx.violation(v["kind"], v["input"], v["detail"])
+                continue
+        ok = False
+        if reported >= 5:
+            continue
+        reported += 1
+        if pf is not None:
+            ctx.violation("property-fails", inp, f"{pf}; program answers {got!r}, model {want!r}")
+        else:
+            ctx.violation("model-impl-disagree", dict(inp, correspondence="Elk programs"),
+                          f"program answers {got!r}, model {want!r}; the calendar oracle found nothing wrong", no_input=True)
+    ctx.obligation(f"Elk programs: implementation = model on {len(reqs)} generated programs", ok, "correspondence")
+
+
 def run(ctx):
     ctx.rule = ("operation lines over value.Date/DateTime/spans: boundary-biased dates (year range ends, year 0, negative "
                 "years, leap days, month ends), spans around int32/int64-nanosecond limits, format strings from a "
@@ -523,3 +616,10 @@ def run(ctx):
         ff = ln.split("\t")
         ctx.stat("op:" + ff[1] + (":" + ff[2] if ff[1] in ("dt", "ds", "ts", "dts") else ""))
     datelib.correspond(ctx, keep, oracle=oracle, minimise=minimise, label="date domain", keyfn=keyfn)
+    # the same operations through Elk source
+    cand = [l for l in keep if l.split("\t")[1] in ("add", "sub", "diffadd", "str")]
+    if ctx.replay and not cand:
+        return
+    if not ctx.replay:
+        ctx.rng.shuffle(cand)
+    run_elk(ctx, cand[:ctx.n(300, 4000)])
